@@ -60,6 +60,22 @@ def over_cap_pairs():
     return eps
 
 
+def stream_pairs():
+    """handlers that flush while they write (event streams, ndjson) behind the plugin: status,
+    encoding header and body must still be the backend's"""
+    eps = []
+    for ct, status, with_cl in (("text%2Fevent-stream", 404, False), ("text%2Fevent-stream", 200, True),
+                                ("application%2Fx-ndjson", 503, False), ("text%2Fplain", 201, False)):
+        sizes = [300, 300, 500]
+        ops = ["sh:Content-Type:" + ct] + (["sh:Content-Length:%d" % sum(sizes)] if with_cl else []) + ["wh:%d" % status]
+        for k, n in enumerate(sizes):
+            ops += ["w:%d:%d" % (n, 11 + k), "fl"]
+        for chain, plain, types in (("gz.5.10.text%2F%7Capplication%2F", "none", "text%2F%7Capplication%2F"), ("log+gz.-1.0.text%2F", "log", "text%2F")):
+            eps.append(["# meta %d %s" % (10 if "5.10" in chain else 0, types),
+                        rwgen.line(chain, "GET", "gzip", "-", 0, "cl", ops), rwgen.line(plain, "GET", "gzip", "-", 0, "cl", ops)])
+    return eps
+
+
 def oracle_pair(ep, outs):
     if not ep or not ep[0].startswith("# meta") or len(outs) != 2:
         return []
@@ -120,9 +136,16 @@ def check(ctx):
     binary = c14.build(ctx)
     d = C.Differential(ctx, binary, timeout=1200)
     n = 2500 if ctx.thorough() else 350
-    episodes = [gen_pair(ctx.rng) for _ in range(n)] + [gen_pair(ctx.rng, big=True) for _ in range(6 if ctx.thorough() else 2)] + over_cap_pairs()
+    episodes = [gen_pair(ctx.rng) for _ in range(n)] + [gen_pair(ctx.rng, big=True) for _ in range(6 if ctx.thorough() else 2)] + over_cap_pairs() + stream_pairs()
     corpus = C.load_corpus(ID)
     bad = d.check(corpus + episodes, oracle=oracle_pair, label="gzip")
+    sess = []
+    for _ in range(150 if ctx.thorough() else 30):
+        pos = ctx.rng.choice(["gz", "log+gz", "gz+sl.1000.100000", "pr.1+gz+pr.2"])
+        sess.append(rwgen.session_episode(ctx.rng, pos.replace("gz", "gz.%d.%d.text%%2F%%7Capplication%%2Fjson" % (ctx.rng.choice([-1, 1, 5, 9]), ctx.rng.choice([0, 10, 100]))),
+                                          ae=ctx.rng.choice(["gzip", "gzip", "-"])))
+    d.check(sess, oracle=lambda e, o: rwgen.session_oracle(e, o) or [], label="gzip-session")
+    ctx.cov["session_episodes"] = len(sess)
     comp = ident = 0
     nontriv = set()
     if bad == 0:
